@@ -414,6 +414,47 @@ func partC(rep *ev.Reporter, s *srvT) int64 {
 			}
 		}
 	}
+	// a custom scalar without a configured model is backed by a Go string: a number sent for it
+	// arrives as text, and that text must still denote the number that was sent
+	for _, in := range []string{"1e20", "25000000000000000000", "9007199254740993", "1e30", "-1e19", "9223372036854775808", "18446744073709551616", "1.5", "0.1", "123", "-7", "1e-7", "-9223372036854775809"} {
+		for form := 0; form < 3; form++ {
+			var query, target string
+			var vars map[string]any
+			switch form {
+			case 0:
+				query, target = fmt.Sprintf("{ xsc(op: %s) }", in), "op"
+			case 1:
+				query, target = "query($v: Opaque) { xsc(op: $v) }", "op"
+				vars = map[string]any{"v": json.Number(in)}
+			case 2:
+				// the defaults of the schema (opd, opf), the argument itself left out
+				if in != "9007199254740993" && in != "1e30" {
+					continue
+				}
+				query, target = "{ xsc(i: 1) }", map[string]string{"9007199254740993": "opd", "1e30": "opf"}[in]
+			}
+			got := s.srv.Run(context.Background(), &univ.Run{Plan: &p}, query, "", diffrun.CopyJSON(vars), 30*time.Second)
+			evals++
+			rep.Distinct("boundary_cases", fmt.Sprintf("%s|opaque|%s|%d", s.name, in, form))
+			recorded := ""
+			for _, e := range got.Events {
+				if e.Kind == "resolver" && e.Field == "xsc" {
+					recorded = extract(e.Args, target)
+				}
+			}
+			if recorded == "" && (len(got.RequestErrors) > 0 || (len(got.Payloads) > 0 && len(got.Payloads[0].Errors) > 0)) {
+				// refused with an error (an integer literal beyond 64 bits): nothing was changed silently
+				rep.Count("C_string_backed_scalar_refused", 1)
+				continue
+			}
+			txt := strings.Trim(recorded, `"`)
+			if recorded == "" || !strings.HasPrefix(recorded, `"`) || !sameNumber(in, txt, false) {
+				rep.Violate("", map[string]any{"part": "C", "why": fmt.Sprintf("number %s sent for a string-backed custom scalar (form %d) reached the resolver as %s", in, form, recorded), "probe": s.name, "query": query, "variables": vars, "payload": payloadText(got)})
+				continue
+			}
+			rep.Count("C_string_backed_scalar_same_number", 1)
+		}
+	}
 	// time / duration / uuid / map / any round trips through the server
 	for _, c := range []struct{ arg, lit, want string }{
 		{"t", `"2020-01-02T03:04:05.123456789Z"`, `"2020-01-02T03:04:05.123456789Z"`},
